@@ -63,11 +63,13 @@ class Run:
         n_pass = sum(1 for o in self.obligations if o["status"] in ("pass", "known"))
         inconc = [o for o in self.obligations if o["status"] == "inconclusive"]
         evals = sum(int(o.get("solver_checks", 0) or 0) for o in self.obligations)
-        nontrivial = sum(1 for o in self.obligations if o["status"] in ("pass", "known") and o.get("nonvacuous"))
+        # distinct non-trivial cases = the distinct reachability witnesses the solver exhibited: every satisfied
+        # cover of a discharged obligation is one (an obligation without covers counts once)
+        nontrivial = sum(max(1, int(o.get("covers_satisfied") or 0)) for o in self.obligations if o["status"] in ("pass", "known") and o.get("nonvacuous"))
         cov = {
             "evaluations": max(evals, 0),
             "distinct_nontrivial": nontrivial,
-            "rule": rule,
+            "rule": rule + "; distinct_nontrivial counts, over the discharged obligations, the satisfied reachability covers (each a distinct branch witness produced by the solver; an obligation without covers counts once)",
             "samples": self.samples[:12] or ["(no sample recorded)"],
             "obligations": n_ob,
             "discharged": n_pass,
